@@ -19,6 +19,7 @@ w = s.world
 import controller.actor as A
 from controller.filtration import Filtration
 from controller.swim import Swim
+cfg = {"F": [Filtration.WINTERING_PERIOD, Filtration.WINTERING_ONLY_BELOW], "S": [Swim.WINTERING_PERIOD, Swim.WINTERING_ONLY_BELOW]}
 class Fut:
     def __init__(self, v): self.v = v
     def get(self, timeout=None): return self.v
@@ -30,8 +31,11 @@ F._Filtration__temperature = Temp(); S._Swim__temperature = Temp()
 out = []
 for c in json.loads(sys.stdin.read()):
     if c[0] == "poll":
-        _, who, tis_us, temp = c
+        _, who, tis_us, temp, period_s, thr = c
         a = F if who == "F" else S
+        cls = Filtration if who == "F" else Swim
+        cls.WINTERING_PERIOD = period_s          # every [wintering] configuration: the class constants are the config values
+        cls.WINTERING_ONLY_BELOW = float(thr)
         m = a._Filtration__machine if who == "F" else a._Swim__machine
         m.set_state("wintering_waiting")
         m._PoupoolModel__state_time = A.datetime.now() - datetime.timedelta(microseconds=tis_us)
@@ -58,7 +62,6 @@ for c in json.loads(sys.stdin.read()):
             acts.append("halt" if "halt" in told else ("rearm" if any(e[1] == "timer_start" for e in w.log[n0:]) else "NOTHING"))
         S.actor_inbox.items.clear()
         out.append(" ".join(acts))
-cfg = {"F": [Filtration.WINTERING_PERIOD, Filtration.WINTERING_ONLY_BELOW], "S": [Swim.WINTERING_PERIOD, Swim.WINTERING_ONLY_BELOW]}
 print("RESULT " + json.dumps({"out": out, "cfg": cfg}))
 ''' % VERIF
 
@@ -77,11 +80,14 @@ def correspondence(chk, which=("poll", "timed")):
         for _ in range(n):
             who = rng.choice(["F", "S"])
             period, thr = cfg[who]
+            if rng.random() < 0.6:
+                # other [wintering] configurations than the shipped one
+                period, thr = rng.choice([600, 3600, 10800, 86400]), rng.choice([-10.0, -2.0, 0.0, 5.0, 12.5])
             p_us = period * 1_000_000
             tis = rng.choice([0, p_us - 1, p_us, p_us + 1, p_us + 120_000_000, rng.randint(0, 3 * p_us)])
             th = int(round(thr * 1000))
             temp = rng.choice([None, None, th - 5000, th - 125, th, th + 125, th + 5000, 0, -125])
-            cases.append(["poll", who, tis, temp])
+            cases.append(["poll", who, tis, temp, period, thr])
     if "timed" in which:
         for _ in range(n // 6):
             delay = rng.choice([1, 2, 5])
@@ -103,7 +109,7 @@ def correspondence(chk, which=("poll", "timed")):
     lines = []
     for cs in cases:
         if cs[0] == "poll":
-            period, thr = cfg[cs[1]]
+            period, thr = cs[4], cs[5]
             lines.append(f"poll {cs[2]} {period * 1_000_000} {'none' if cs[3] is None else cs[3]} {int(round(thr * 1000))}")
         else:
             lines.append("timed " + str(cs[1] * 60_000_000) + " " + " ".join(str(t) for t in cs[2]))
@@ -115,7 +121,7 @@ def correspondence(chk, which=("poll", "timed")):
     # monitor: the statement's clauses decided on the real decisions
     for cs, r in zip(cases, real["out"]):
         if cs[0] == "poll":
-            period, thr = cfg[cs[1]]
+            period, thr = cs[4], cs[5]
             cold = cs[3] is None or cs[3] <= int(round(thr * 1000))
             due = cs[2] > period * 1_000_000
             if due and cold and r != "stir":
